@@ -28,6 +28,22 @@ def run(prog: Program, rep: Report, tier: str):
     semi(prog, rep)
     weighted(prog, rep)
     balanced(prog, rep)
+    # the epoch composition is a statement about all ranks together: the rank split / equal length clauses of C12 apply
+    from .c12 import rank_split_rules
+    for cname in ("ClassBalancedSampler", "WeightedSampler"):
+        K = prog.cls(cname)
+        it = K.methods.get("__iter__")
+        rank_split_rules(prog, rep, K, it, fa_of(prog, it), "rank", "world_size", clause="C13.5")
+    S = prog.cls("SemiSampler")
+    ln = S.methods.get("__len__")
+    if ln is not None:
+        la = fa_of(prog, ln)
+        rets = [t for _, t in la.returns() if t is not None]
+        want = ("binop", "//", ("self", "effective_length"), ("self", "world_size"))
+        rep.decide(len(rets) == 1 and rets[0] == want, "G9.rank-split", ln, "len",
+                   "__len__ = effective_length // world size (the same on every rank)",
+                   f"SemiSampler.__len__ returns {show(rets[0]) if rets else '?'}: per-rank streams are not equally long / do "
+                   f"not follow the documented length mode", clause="C13.5")
     names.check(prog, rep, FILES, clause="C13.G1", floor=12)
 
 
